@@ -90,6 +90,14 @@ def value_key(kind, v):
 class C09(CodeMonitor):
     prop = "C09"
 
+    def __init__(self, tier):
+        CodeMonitor.__init__(self, tier)
+        # every signature shape (parameters that are never read, read out of order,
+        # positional-only, cells): parameters count first in the first-use order
+        import mon_misc
+
+        self._strata = [("SIG", mon_misc.sig_cases, mon_misc.n_sig_cases())] + list(self._strata)
+
     def check_code(self, case, code, stats):
         raw, sym = self.oracle(code, stats)
         d = self.decode(case, code, stats)
